@@ -25,6 +25,26 @@ CLAIMS = {
         ref='DESIGN.md §2 C03'),
 }
 
+CLAIMS['C15'] = dict(
+    text='parse(build(x)) == x and build(parse(y)) ~ y for requests and responses assembled from symbolic components (header value bytes, '
+         'body bytes, reason bytes; methods/status codes/lengths case-split), each output judged by an independent reference reader '
+         '(vlib/refhttp.py, cross-checked against h11 every run); to_chunks/ChunkParser inverse for every body of 0..4 symbolic bytes x '
+         'chunk size 1..5; update_body for identity/chunked/unsupported encodings. Verdict per obligation is CONFIRMED over all paths.',
+    note='Trusted: CrossHair + z3, plugin models, the reference reader. gzip branches run on concrete bodies only (zlib is C code) in the '
+         'oracle self-test and are not a solver claim. Status codes are a concrete list.',
+    ref='DESIGN.md §2 C15')
+CLAIMS['C16'] = dict(
+    text='(a) direct SMT queries over bit-vectors translated from the current source of build()/parse_fin_and_rsv/parse_mask_and_payload/'
+         'apply_mask: header bytes decode to the same fields and equal the RFC 6455 layout for all flag/opcode/length<126 values; masking '
+         'equals RFC XOR and is an involution for symbolic data and key; (b) CrossHair round trip parse(build(f)+T) and byte equality with '
+         'an independent RFC 6455 encoder for payload lengths at both length-encoding thresholds, all flags x opcodes, symbolic payload '
+         'and trailing bytes.',
+    note='Trusted: z3, the AST->z3 translator (validated on 1000 random inputs per run against the native functions), CrossHair, plugin '
+         'models of struct.pack/unpack and io.BytesIO. Masked frames above 127 bytes and the SHA-1/base64 accept token run on concrete '
+         'vectors only (reported as concrete_vectors, not a solver claim).',
+    ref='DESIGN.md §2 C16',
+    technique='SMT (z3 bit-vector) queries on AST-translated kernels + bounded symbolic execution (CrossHair) of build/parse')
+
 NOT_BUILT = 'check not built yet in this session (work in progress; see DESIGN.md §2 for the plan)'
 NA = {
     'C17': 'mode equivalence depends on OS threads, processes and descriptor passing (send_handle/recv_handle, real select/accept), which '
